@@ -80,6 +80,22 @@ func (n *Property) Inject(metas []*Meta) error {
 		return nil
 	}
 
+	//a component that a post processor replaced by an object of another type no longer fits every field its
+	//definition matched: it is not a candidate for such a field (reflect.Set would panic on it)
+	target := n.Type
+	if target.Kind() == reflect.Slice || target.Kind() == reflect.Array {
+		target = target.Elem()
+	}
+	metas = filter(metas, func(m *Meta) bool {
+		return m.Value.IsValid() && m.Value.Type().AssignableTo(target)
+	})
+	if len(metas) == 0 {
+		if isRequired {
+			return errors.Errorf("inject '%s': no available component is assignable to the field", n)
+		}
+		return nil
+	}
+
 	switch n.Type.Kind() {
 	case reflect.Slice, reflect.Array:
 		n.Value.Set(reflect.MakeSlice(n.Type, len(metas), len(metas)))
